@@ -58,7 +58,7 @@ func lutFilledBy(p *Program, g *ssa.Global) lutInfo {
 	st := stores[0]
 	info := lutInfo{Pos: p.InstrPos(st)}
 	sl, ok := st.Val.(*ssa.Slice)
-	if !ok || sl.Low != nil || sl.High != nil {
+	if !ok {
 		info.Why = "the stored value is not the full slice of a built array"
 		return info
 	}
@@ -66,6 +66,25 @@ func lutFilledBy(p *Program, g *ssa.Global) lutInfo {
 	if !ok {
 		info.Why = "the stored slice is not taken from a local array"
 		return info
+	}
+	// full slice: arr[:], arr[0:], arr[:len(arr)], arr[0:len(arr)] (len of an array is a constant)
+	arrLen := int64(-1)
+	if pt, isP := al.Type().Underlying().(*types.Pointer); isP {
+		if at, isA := pt.Elem().Underlying().(*types.Array); isA {
+			arrLen = at.Len()
+		}
+	}
+	if sl.Low != nil {
+		if lo, isC := constInt(sl.Low); !isC || lo != 0 {
+			info.Why = "the stored value is not the full slice of a built array"
+			return info
+		}
+	}
+	if sl.High != nil {
+		if hi, isC := constInt(sl.High); !isC || hi != arrLen {
+			info.Why = "the stored value is not the full slice of a built array"
+			return info
+		}
 	}
 	var call *ssa.Call
 	for _, u := range refs(al) {
